@@ -26,3 +26,61 @@ package yqlib
 //@     invariant @prefix forall(j, 0, len(newContents), newContents[j] == contents[j + b2i(0 <= k && k <= j)])
 //@     invariant @keys forall(j, 0, len(newContents), newContents[j].Key.Value == itoa(j))
 //@     decreases len(contents) - index
+
+// ---------------------------------------------------------------------------------------------
+// lib.go, operator_booleans.go, candidate_node.go, operator_datetime.go: scalar readers
+
+//@ func parseInt64
+//@   props C15 C01 C11
+//@   ensures @ok-iff (result2 == nil) == intOk(numberString)
+//@   ensures @value implies(result2 == nil, result1 == intOf(numberString))
+
+//@ func isTruthyNode
+//@   props C15 C01 C19 C11
+//@   ensures result == (node != nil && node.Tag != "!!null" && (!(node.Kind == ScalarNode && node.Tag == "!!bool") || truthyText(node.Value)))
+
+//@ func parseSnippet
+//@   trusted
+//@   ensures (result1 == nil) == (value == "" || snippetOk(value))
+//@   ensures implies(result1 == nil, result0 != nil && fresh(result0))
+//@   ensures implies(result1 == nil && value != "", result0.Tag == snippetTag(value))
+
+//@ func (*CandidateNode).guessTagFromCustomType
+//@   props C15 C11
+//@   requires n != nil
+//@   ensures result == effTag(n.Tag, n.Value)
+
+//@ func parseDateTime
+//@   trusted
+//@   ensures (result1 == nil) == timeOk(layout, datestring)
+//@   ensures implies(result1 == nil, instant(result0) == timeOf(layout, datestring))
+
+// ---------------------------------------------------------------------------------------------
+// operator_sort.go
+
+//@ func (sortableNodeArray).compare
+//@   props C15 C11
+//@   let lt = effTag(lhs.Tag, lhs.Value)
+//@   let rt = effTag(rhs.Tag, rhs.Value)
+//@   let core = strings.HasPrefix(lhs.Tag, "!!") && strings.HasPrefix(rhs.Tag, "!!") && lhs.Kind == ScalarNode && rhs.Kind == ScalarNode
+//@   requires lhs != nil && rhs != nil
+//@   ensures @sign-exact implies(core && parsesAs(lt, lhs.Value, dateTimeLayout) && parsesAs(rt, rhs.Value, dateTimeLayout), sign(result) == cmpSpec(lt, lhs.Value, rt, rhs.Value, dateTimeLayout))
+//@   replay
+//@     mk := func(tag, text string, isInt bool, iv string, isFlt bool, fv float64) *CandidateNode {
+//@       v := text
+//@       if tag == "!!int" && isInt { v = iv } else if tag == "!!float" && isFlt { v = fmt.Sprintf("%v", fv) }
+//@       return &CandidateNode{Kind: ScalarNode, Tag: tag, Value: v}
+//@     }
+//@     lhs := mk($str(lhs.Tag), $str(lhs.Value), $bool(intOk(lhs.Value)), $itoa(intOf(lhs.Value)), $bool(fltOk(lhs.Value)), $real(fltOf(lhs.Value)))
+//@     rhs := mk($str(rhs.Tag), $str(rhs.Value), $bool(intOk(rhs.Value)), $itoa(intOf(rhs.Value)), $bool(fltOk(rhs.Value)), $real(fltOf(rhs.Value)))
+//@     t.Logf("lhs=%s %q rhs=%s %q", lhs.Tag, lhs.Value, rhs.Tag, rhs.Value)
+//@     got := sortableNodeArray{}.compare(lhs, rhs, $str(dateTimeLayout))   // a panic fails the test
+//@     sgn := func(x int) int { if x < 0 { return -1 }; if x > 0 { return 1 }; return 0 }
+//@     num := func(n *CandidateNode) (*big.Float, bool) {
+//@       if n.Tag == "!!int" { if i, ok := new(big.Int).SetString(strings.ReplaceAll(n.Value, "_", ""), 0); ok { return new(big.Float).SetInt(i), true } }
+//@       if n.Tag == "!!int" || n.Tag == "!!float" { if f, _, err := big.ParseFloat(n.Value, 10, 200, big.ToNearestEven); err == nil { return f, true } }
+//@       return nil, false
+//@     }
+//@     if a, ok := num(lhs); ok { if b, ok := num(rhs); ok {
+//@       if lhs.Tag == "!!int" && rhs.Tag == "!!int" && sgn(got) != a.Cmp(b) { t.Fatalf("compare(%s, %s) = %d but the integers compare %d", lhs.Value, rhs.Value, got, a.Cmp(b)) }
+//@     } }
